@@ -21,9 +21,9 @@ PLAN = {
     "quick": {"configs": ["ext1", "ext0"], "nshards": 9, "nshards_ext0": 3, "timeout": 900},
     "thorough": {"configs": ["ext1", "ext0"], "nshards": 14, "timeout": 3400, "suite": ["ext1"]},
 }
-DECIDING = ["direction.marker", "format.phrase", "history", "in_words", "tokens", "humans.direction", "bound"]
-FLOORS = {"quick": {"format.phrase": 300000, "history": 50000, "in_words": 5000, "tokens": 10000, "humans.direction": 5000, "bound": 20000},
-          "thorough": {"format.phrase": 1500000, "history": 200000, "in_words": 50000, "tokens": 10000, "humans.direction": 50000, "bound": 200000}}
+DECIDING = ["direction.marker", "humans.boundary", "format.phrase", "history", "in_words", "tokens", "humans.direction", "bound"]
+FLOORS = {"quick": {"format.phrase": 300000, "history": 50000, "in_words": 5000, "tokens": 10000, "humans.direction": 5000, "bound": 20000, "humans.boundary": 20000, "direction.marker": 50000},
+          "thorough": {"format.phrase": 1500000, "history": 200000, "in_words": 50000, "tokens": 10000, "humans.direction": 50000, "bound": 200000, "humans.boundary": 100000, "direction.marker": 200000}}
 REQUIRED_HOOKS = ["DifferenceFormatter.format"]
 EXHAUSTIVE = {"quick": False, "thorough": True}
 TECHNIQUE = "runtime contract on DifferenceFormatter.format with a reference phrase built from the locale's own data (direction templates, documented rounding), totality monitors, history-independence digests"
@@ -257,6 +257,25 @@ def setup(M):
     M.contract(LOC, "get", post=lambda r, a, k, s: M.count("Locale.get.calls"), label="Locale.get")
 
 
+def _expect_humans(M, cls, got, length, loc, is_now, future, absolute):
+    """got must be the locale's phrase for (unit, count) of `length` in the direction the workload knows"""
+    D = M.data.get(loc)
+    if D is None:
+        return
+    try:
+        unit, count = table(length)
+    except Exception:  # noqa: BLE001
+        return
+    exp = reference(D, D["plural"], unit, count, is_now, future, absolute)
+    if exp is None:
+        return
+    opp = reference(D, D["plural"], unit, count, is_now, not future, absolute) if not absolute else None
+    what = "ok" if got == exp else ("wrong-direction" if got == opp and opp != exp else "phrase")
+    M.check("humans.boundary", got == exp, f"C18/humans-boundary:{cls}:{what}:{'now' if is_now else 'other'}" + (":abs" if absolute else ""),
+            "diff_for_humans does not give the phrase for the elapsed time and direction between the instance and its reference",
+            got=got, expected=exp, unit=unit, count=count, future=future, locale=loc)
+
+
 def counts(thorough, plural):
     if thorough:
         return list(range(0, 1001))
@@ -284,6 +303,7 @@ def cases(M):
         yield {"k": "grid", "loc": loc}
         yield {"k": "tokens", "loc": loc}
         yield {"k": "humans", "loc": loc, "seed": r.randrange(1 << 30), "n": 6000 if thorough else 1500}
+        yield {"k": "humans_time", "loc": loc, "seed": r.randrange(1 << 30), "n": 3000 if thorough else 600}
         yield {"k": "words", "loc": loc, "seed": r.randrange(1 << 30), "n": 6000 if thorough else 1000}
     yield {"k": "history", "seed": r.randrange(1 << 30), "n": 100000 if thorough else 20000}
 
@@ -399,6 +419,11 @@ def run(M, c):
                 except Exception:  # noqa: BLE001
                     continue
                 M.cls("human", loc, sign, other is None, absolute, min(len(str(secs)), 7))
+                # boundary expectation, independent of the difference object the method hands to the formatter: direction
+                # from the workload's own sign, unit/count from the decomposition of the two endpoints
+                if secs:
+                    lo_, hi_ = (base, x) if sign > 0 else (x, base)
+                    _expect_humans(M, "DateTime", s, P.Interval(lo_, hi_), loc, other is None, sign > 0, absolute)
                 if i % 7 == 0:
                     d = P.Date(2021, 6, 15).add(days=sign * (secs // 86400 + 1))
                     try:
@@ -406,6 +431,31 @@ def run(M, c):
                         P.Time(12, 0, 0).diff_for_humans(P.Time((12 + sign * (secs % 11)) % 24, 30, 0), locale=loc)
                     except Exception:  # noqa: BLE001
                         pass
+        return
+    if k == "humans_time":
+        import time_machine
+
+        loc = c["loc"]
+        r = random.Random(c["seed"])
+        for hh, mm, ss in ((21, 37, 11), (2, 10, 0), (12, 0, 0)):
+            now = dt.datetime(2021, 6, 15, hh, mm, ss, tzinfo=dt.timezone.utc)
+            nsec = hh * 3600 + mm * 60 + ss
+            with time_machine.travel(now, tick=False):
+                for i in range(c["n"] // 3):
+                    M.progress()
+                    tsec = r.choice((r.randrange(86400), (nsec + r.choice((-1, 1)) * r.randrange(1, 130)) % 86400, r.choice((0, 86399, 43200))))
+                    if tsec == nsec:
+                        continue
+                    t = P.Time(tsec // 3600, tsec // 60 % 60, tsec % 60)
+                    explicit = i % 3 == 0
+                    absolute = i % 5 == 0
+                    M.current = {"k": "human_time", "loc": loc, "time": str(t), "now": str(now.time()), "explicit": explicit, "abs": absolute}
+                    try:
+                        s = t.diff_for_humans(P.Time(hh, mm, ss) if explicit else None, absolute=absolute, locale=loc)
+                    except Exception:  # noqa: BLE001
+                        continue          # the totality contract has recorded it
+                    M.cls("human_time", loc, tsec > nsec, explicit, absolute, abs(tsec - nsec) > 43200)
+                    _expect_humans(M, "Time", s, P.duration(seconds=abs(tsec - nsec)), loc, not explicit, tsec > nsec, absolute)
         return
     if k == "words":
         loc = c["loc"]
